@@ -276,3 +276,39 @@ def reaching_defs(ctx, f, at_node, name):
         if not hit:
             stack.extend(p for p, lab in n.preds)
     return out
+
+
+def reaching_def_nodes(ctx, f, at_node, name):
+    """AST statements (Assign/AnnAssign/AugAssign/For/With) whose binding of
+    local `name` reaches `at_node`; the string 'param' stands for the entry."""
+    from sa.cfg import assigned_paths
+
+    cfg = ctx.cfg(f)
+    n0 = cfg.node_of(at_node)
+    if n0 is None:
+        return [st for st, _ in defs_of(ctx, f, name)] + (["param"] if name in f.params else [])
+    out = []
+    seen = set()
+    stack = [p for p, lab in n0.preds]
+    # a loop statement's own target binds on entry to the body
+    while stack:
+        i = stack.pop()
+        if i in seen:
+            continue
+        seen.add(i)
+        n = cfg.nodes[i]
+        a = n.ast
+        hit = False
+        if n.kind == "stmt" and isinstance(a, (ast.Assign, ast.AnnAssign, ast.AugAssign, ast.With)) and name in assigned_paths(a):
+            hit = True
+            out.append(a)
+        elif n.kind == "for" and name in assigned_paths(a):
+            hit = True
+            out.append(a)
+        elif n.kind == "entry":
+            if name in f.params:
+                out.append("param")
+            continue
+        if not hit:
+            stack.extend(p for p, lab in n.preds)
+    return out
